@@ -267,13 +267,17 @@ inductive Res where
   | yield (p : Prog) (fr : Frame)
   | ret
 
+/-- `Function(element.P, list(new_args))` if `len(args_possibles) > 0` else `element.P`
+    (beap_search.py:201-204) -/
+def mkProg (P : Sym) (isFun : Bool) (a : List Prog) : Prog := if isFun then .node P a else .node P []
+
 /-- the loop `for new_args in product(*args_possibles)` up to its next `yield`
     (beap_search.py:200-212) -/
 def emit (E : Env S) (nt : NT S Unit) (ci : Nat) (P : Sym) (isFun : Bool) :
     St S → List (List Prog) → St S × Option (Prog × List (List Prog))
   | s, [] => (s, none)
   | s, a :: rest =>
-    let np : Prog := if isFun then .node P a else .node P []
+    let np : Prog := mkProg P isFun a
     if s.deleted.contains np then emit E nt ci P isFun s rest
     else if !E.filter np then emit E nt ci P isFun (s.addDeleted np) rest
     else (s.setBank nt ci (((AList.lookup ci (s.bankOf nt)).getD []) ++ [np]), some (np, rest))
@@ -293,8 +297,11 @@ def succLoop (nt : NT S Unit) (cost : Cost) (P : Sym) (comb : List Nat) :
       if c + 1 > 1 then s' else succLoop nt cost P comb s' (i + 1) as
 
 /-- the end of `query` (beap_search.py:213-220) -/
+def markEmpty (s : St S) (nt : NT S Unit) (fr : Frame) : St S :=
+  if !fr.hasGen && !fr.noSucc then { s.addEmpty nt fr.ci with failedByEmpties := true } else s
+
 def epilogue (s : St S) (nt : NT S Unit) (fr : Frame) : St S :=
-  let s1 := if !fr.hasGen && !fr.noSucc then { s.addEmpty nt fr.ci with failedByEmpties := true } else s
+  let s1 := markEmpty s nt fr
   match s1.queueOf nt with
   | [] => s1
   | e :: _ => s1.setCL nt (s1.clOf nt ++ [e.cost])
